@@ -41,6 +41,10 @@ pub enum Probe {
     /// followed by the first `tail` bytes of another one (byte size and marker consistent).
     /// The missing object is a truncated datum: it must be an error, never a value.
     Container { codec: u8, first: usize, declared: i64, whole: usize, tail: usize },
+    /// A container file written with the schema stripped of its uuid / duration annotations on
+    /// fixeds, read with the annotated schema as reader schema: every value handed out must be the
+    /// value of the annotated schema (the reader schema says what the caller gets).
+    AnnotatedReader,
 }
 
 #[derive(Clone, Debug, Serialize, Deserialize)]
@@ -219,6 +223,47 @@ fn run_probe(case: &Case, p: &Prepared, probe: &Probe, ctx: &mut Ctx) -> Option<
         }
     };
     match probe {
+        Probe::AnnotatedReader => {
+            let (rs, _) = p.rs.as_ref()?;
+            let writer_rs = strip_fixed_annotations(rs);
+            let json = serde_json::to_string(&to_json(&writer_rs)).unwrap();
+            let meta = vec![("avro.schema".to_string(), json.into_bytes())];
+            let marker = [0x3cu8; 16];
+            let mut file = refimpl::write_header(&meta, &marker);
+            let mut blk = p.bytes.clone();
+            blk.extend_from_slice(&p.bytes);
+            refimpl::write_block(&mut file, 2, &blk, &refimpl::RCodec::Null, &marker);
+            ctx.eval();
+            ctx.agg.count("probe.container_read_with_annotated_reader_schema");
+            let r = guarded(|| -> Result<Vec<Value>, String> {
+                let rd = apache_avro::Reader::builder(&file[..]).reader_schema(&p.schema).build().map_err(|e| e.to_string())?;
+                let mut out = vec![];
+                for item in rd {
+                    out.push(item.map_err(|e| e.to_string())?);
+                }
+                Ok(out)
+            });
+            match r {
+                Err(panic) => Some(fail("panic", "container+reader_schema", format!("panic: {panic}"), probe)),
+                // resolution may legitimately refuse; what it hands out must be the reader schema's value
+                Ok(Err(_)) => None,
+                Ok(Ok(vs)) => {
+                    if vs.len() != 2 || !vs.iter().all(|v| avro_eq(v, &p.expected)) {
+                        return Some(Failure::new(
+                            "nonconforming-value",
+                            "C06 nonconforming-value node=annotated-fixed decoder=container+reader_schema".to_string(),
+                            format!(
+                                "a file written with plain fixeds and read with a reader schema that annotates them (uuid / duration) handed out {} instead of {} [probe={}]",
+                                vs.first().map(crate::gen::describe_value).unwrap_or_default(),
+                                crate::gen::describe_value(&p.expected),
+                                serde_json::to_string(probe).unwrap()
+                            ),
+                        ));
+                    }
+                    None
+                }
+            }
+        }
         Probe::Container { codec, first, declared, whole, tail } => {
             let codec = match codec {
                 0 => refimpl::RCodec::Null,
@@ -518,6 +563,11 @@ fn probes(case: &Case, p: &Prepared) -> Vec<Probe> {
         let len = r.usize_below(12);
         out.push(Probe::Bytes { bytes: r.bytes(len) });
     }
+    if let Some((rs, _)) = &p.rs {
+        if strip_fixed_annotations(rs) != *rs {
+            out.push(Probe::AnnotatedReader);
+        }
+    }
     if n > 0 && p.rs.is_some() {
         // the stateful reader: a block that declares more objects than it holds, after a larger block
         for codec in [0u8, 0, 1 + r.below(5) as u8] {
@@ -528,6 +578,19 @@ fn probes(case: &Case, p: &Prepared) -> Vec<Probe> {
         }
     }
     out
+}
+
+/// The schema with uuid / duration annotations on fixeds removed (same bytes on the wire).
+fn strip_fixed_annotations(s: &RS) -> RS {
+    use crate::gen::Logical;
+    match s {
+        RS::Logical(Logical::UuidFixed | Logical::Duration, base) => (**base).clone(),
+        RS::Record { full, style, fields } => RS::Record { full: full.clone(), style: style.clone(), fields: fields.iter().map(|(n, t)| (n.clone(), strip_fixed_annotations(t))).collect() },
+        RS::Array(t) => RS::Array(Box::new(strip_fixed_annotations(t))),
+        RS::Map(t) => RS::Map(Box::new(strip_fixed_annotations(t))),
+        RS::Union(bs) => RS::Union(bs.iter().map(strip_fixed_annotations).collect()),
+        other => other.clone(),
+    }
 }
 
 /// A struct with a fixed-size array field read through the crate's `serde::array` helper.
